@@ -117,7 +117,7 @@ def mutate(rng, base, others):
 def run_C12(chk):
     chk.prepare_model(['Cctz.Properties.C12', 'Cctz.Properties.C12Tables'], THEOREMS['C12'])
     exe = chk.harness('san')
-    scale = chk.tier if not chk.broken else 'thorough'
+    scale = chk.tier if not (chk.broken or chk.degraded) else 'thorough'
     if exe is None or not getattr(chk, 'driver_ok', False):
         return chk.finish()
     rng = chk.rng
